@@ -135,6 +135,7 @@ def run(chk, repo: Repo):
         else:
             _ugla(chk, repo, ci, fn)
     _r3(chk, repo)
+    _r3_solver_budget(chk, repo)
     _r4(chk, repo)
     _r2_rebuild(chk, repo)
     _r2_five_tuple(chk, repo)
@@ -458,6 +459,27 @@ def _ugla(chk, repo, ci, fn):
                                 f"from the second step on the right-hand side belongs to another linearisation point than the operator")
     chk.add("C06-R2", f"{ci.qual}.{fn.name}/b_tild", not problems, site(repo, fn), "rhs = [L1 data; c·L2 loc], operator = [L1 A; c·L2], rebuilt every step",
             "; ".join(problems), fn)
+
+
+def _r3_solver_budget(chk, repo):
+    """`run to convergence` is the caller's to decide: the inner solvers keep the iteration budget and tolerances they are constructed with (CG needs
+    more than n iterations in floating point; a cap derived from the problem size makes the draw depend on the current state)."""
+    from .common import assigned_values
+    for cls, fields in (("CGLS", ("maxit", "tol", "shift")), ("PCGLS", ("maxit", "tol"))):
+        ci = repo.cls(f"cuqi/solver/_solver.py:{cls}")
+        init = repo.method(ci, "__init__")[1]
+        params = set(func_params(init)[1:])
+        for f in fields:
+            vals = []
+            for attr in (f"self.{f}", f"self._{f}"):
+                vals += assigned_values(repo, ci, init, attr)
+            if not vals:
+                raise AnchorError(f"{cls}.__init__: option `{f}` is not stored")
+            ok = all(v in params or v in {f"int({p_})" for p_ in params} or v in {f"float({p_})" for p_ in params} for v in vals)
+            chk.add("C06-R3", f"{ci.qual}.__init__/{f}", ok, site(repo, init), f"`{f}` stored as given",
+                    f"the solver stores `{vals}` for its option `{f}`, not the value it was constructed with: the caller's iteration budget / tolerance is silently "
+                    f"changed (with a cap at the number of unknowns CG stops before convergence on moderately conditioned problems, so the RTO draw depends on the "
+                    f"current state and its mean and covariance are off)", init)
 
 
 def _r3(chk, repo):
